@@ -288,6 +288,43 @@ def run(ctx):
                 expected="exit 0 with reference_groups['a.'] = 2", observed={"rc": rc, "stderr": err[:200].decode("latin1")},
                 cls="refgroup-symbol-trailing-dot" if narrow else None))
         shutil.rmtree(d, ignore_errors=True)
+        # directed: entries that reach git through a CONDITIONAL include whose condition depends on how the repository is
+        # addressed (includeIf "gitdir:<path through a symbolic link>/", "gitdir/i:", "onbranch:"): git itself is the judge
+        d = os.path.join(scratch, "incl-real")
+        s, c = RC.base_scenario()
+        names = (b"refs/heads/a", b"refs/heads/b", b"refs/tags/t")
+        for n in names:
+            s.refs.append((n, c))
+        s.compute()
+        gitdir = s.materialise(d)
+        subprocess.run(["git", "-C", d, "symbolic-ref", "HEAD", "refs/heads/a"], env=S.clean_env())
+        link = os.path.join(scratch, "incl-link")
+        os.symlink(d, link)
+        inc = os.path.join(scratch, "included.cfg")
+        open(inc, "w").write('[refgroup "vialink"]\n\tinclude = refs/heads\n')
+        inc2 = os.path.join(scratch, "included2.cfg")
+        open(inc2, "w").write('[refgroup "onbranch"]\n\tinclude = refs/tags\n')
+        glob = os.path.join(scratch, "incl-global.cfg")
+        open(glob, "w").write('[includeIf "gitdir:%s/"]\n\tpath = %s\n[includeIf "onbranch:a"]\n\tpath = %s\n' % (link, inc, inc2))
+        for what, cwd, extra_env in (("through the symbolic link", link, {}), ("through the real path", d, {}),
+                                     ("through the link's subdirectory .git as GIT_DIR", scratch, {"GIT_DIR": os.path.join(link, ".git")})):
+            env = S.clean_env(dict({"GIT_CONFIG_GLOBAL": glob}, **extra_env))
+            env["PWD"] = cwd
+            lst = subprocess.run(["git", "config", "--list", "-z"], cwd=cwd, env=env, stdout=subprocess.PIPE, stderr=subprocess.PIPE)
+            want = sorted({k[len(b"refgroup."):].rpartition(b".")[0].decode() for k, v in listing_records(lst.stdout) if k.startswith(b"refgroup.")})
+            rc, out, err = S.run_sizer(ctx["bins"]["sizer"], cwd, ["--json", "--json-version=2", "--no-progress", "-v"], env=env)
+            res.case(("includeIf", what), True)
+            got = None
+            if rc == 0:
+                try:
+                    got = sorted(k[len("refgroup."):] for k in json.loads(out) if k.startswith("refgroup.") and k[len("refgroup."):] in ("vialink", "onbranch"))
+                except Exception:
+                    got = None
+            if got != [w for w in want if w in ("vialink", "onbranch")]:
+                res.violations.append(vlib.Violation(
+                    "refgroups that git reports through a conditional include are not the ones git-sizer uses (repository addressed %s)" % what,
+                    {"global": open(glob).read().splitlines(), "cwd": cwd, "env": extra_env}, expected=want, observed={"rc": rc, "groups": got, "stderr": err[:200].decode("latin1")}))
+        shutil.rmtree(d, ignore_errors=True)
         # directed: `[refgroup]` entries without a subsection define no group and leak into none — not into the selection either
         for bare in (["\tinclude = refs/heads"], ["\tinclude"], ["\texclude = refs/tags", "\tname = stray"], ["\tincludeRegexp = refs/heads/.*"]):
             d = os.path.join(scratch, "bare")
